@@ -394,8 +394,9 @@ def h_dtype(ctx):
             ci = (np.array([0, 3, 1], dtype=np.int64), np.array([0, 1, 4], dtype=np.int64))
             cf = (ci[0].astype(float), ci[1].astype(float))
             q = (np.array([0.25]), np.array([0.75]))
-            pi = vd.KNeighbors(k=2).fit(ci, np.asarray(di) if ctx.sym else di).predict(q)
-            pf = vd.KNeighbors(k=2).fit(cf, df).predict(q)
+            red = npx.NP.mean if ctx.sym else np.mean  # numpy's own mean cannot reduce a modelled-dtype array
+            pi = vd.KNeighbors(k=2, reduction=red).fit(ci, di).predict(q)
+            pf = vd.KNeighbors(k=2, reduction=red).fit(cf, df).predict(q)
             ctx.claim("KNeighbors: integer-dtype inputs give the float64 result", eq(pi[0], pf[0]))
 
 
